@@ -47,7 +47,8 @@ Op mkop19(const char *k, int a = 0, int b = 0, int c = 0, int d = 0, const std::
 }
 
 const char *const kPayloads19[] = { "alpha", "beta", "gamma xx", "delta  spaced", "UPPER a", "zeta",
-                                    "eta %d %s {x}", "iota \xc3\xbc\xc3\xb1\xc3\xaf", "a", "xx end a" };
+                                    "eta %d %s {x}", "iota \xc3\xbc\xc3\xb1\xc3\xaf", "a", "xx end a",
+                                    "hl \033[1mbold\033[0m and \033[38;5;208morange\033[0m a" };
 
 Op gen_log19(sim::Rng &r, bool big_ok)
 {
@@ -56,7 +57,7 @@ Op gen_log19(sim::Rng &r, bool big_ok)
     int cat = r.chance(2, 5) ? 0 : (int)r.below(kNumCategories);
     int file = 1 + (int)r.below(kNumFiles - 1);
     int func = 1 + (int)r.below(kNumFunctions - 1);
-    Op o = mkop19("log", type, cat, file | (func << 8), (int)r.below(2000), kPayloads19[r.below(10)]);
+    Op o = mkop19("log", type, cat, file | (func << 8), (int)r.below(2000), kPayloads19[r.below(11)]);
     if (big_ok && r.chance(1, 6))
         o.e = (int)r.range(40, 300);
     return o;
@@ -487,7 +488,9 @@ struct Call19
 {
     int cid = -1, producer = 0, opidx = 0;
     const Op *op = nullptr;
-    std::string text;
+    std::string text; // as logged (may itself contain colour sequences)
+    std::string plain; // text with colour sequences removed
+    int own_seq = 0; // colour sequences that are part of the message
     long invoke = -1, ret = -1;
     std::vector<long long> wall;
     bool passes = true;
@@ -592,7 +595,7 @@ int map_line(const std::string &ln, const std::map<int, Call19> &calls)
         if (j == j0 || j >= ln.size() || ln[j] != ' ')
             continue;
         auto it = calls.find(call_id(p, i));
-        if (it != calls.end() && ln.compare(k, it->second.text.size(), it->second.text) == 0)
+        if (it != calls.end() && ln.compare(k, it->second.plain.size(), it->second.plain) == 0)
             return it->first;
     }
     return -1;
@@ -683,7 +686,7 @@ struct Formatter19
             m.time_ms = ms;
             model.eval(root, m);
             after = model.st;
-            if (!model.out.empty() && match_with_field(model.out[0].text, 0, observed, 0, nullptr)) {
+            if (!model.out.empty() && match_with_field(strip_ansi(model.out[0].text), 0, observed, 0, nullptr)) {
                 ok = true;
                 break;
             }
@@ -708,7 +711,7 @@ struct Formatter19
         m.message = c.text;
         m.time_ms = c.wall.empty() ? 0 : c.wall[0] / 1000000;
         model.eval(root, m);
-        std::string r = model.out.empty() ? std::string() : model.out[0].text;
+        std::string r = model.out.empty() ? std::string() : strip_ansi(model.out[0].text);
         model.st = saved;
         model.out.clear();
         return r;
@@ -931,6 +934,7 @@ Verdict judge_c19(const Plan &plan, const sim::Shm *shm, const ChildExit &, cons
                 c.opidx = (int)i;
                 c.op = &ops[i];
                 c.text = expected_text19(producer, (int)i, ops[i]);
+                c.plain = strip_ansi(c.text, &c.own_seq);
                 std::string cat = kCategories[ops[i].b % kNumCategories];
                 c.passes = (cfg.rules < 0 || cat_verdict(cfg.rules, cat, ops[i].a))
                         && (cfg.regex < 0 || regex_verdict(cfg.regex, c.text));
@@ -1030,6 +1034,11 @@ Verdict judge_c19(const Plan &plan, const sim::Shm *shm, const ChildExit &, cons
     check_output(v, so, out_lines, calls, cfg, &cnt_out);
     OutputCheck se { "stderr", cfg.n_stderr + cfg.n_platform, false, true };
     check_output(v, se, err_lines, calls, cfg, &cnt_err);
+    if (cfg.ini && v.ok)
+        for (auto *ls : { &out_lines, &err_lines })
+            for (auto &l : *ls)
+                if (l.cid >= 0 && l.raw.find(calls[l.cid].text) == std::string::npos)
+                    fail19(v, "message-altered", "console line for " + mname(calls[l.cid]) + " does not carry the message text verbatim");
     int stray_out = 0, stray_err = 0;
     for (auto &l : out_lines)
         if (l.cid < 0 && !l.plain.empty())
@@ -1054,7 +1063,7 @@ Verdict judge_c19(const Plan &plan, const sim::Shm *shm, const ChildExit &, cons
         for (auto &l : out_lines) {
             if (l.cid < 0)
                 continue;
-            bool col = l.nseq > 0;
+            bool col = l.nseq > calls[l.cid].own_seq;
             if (cfg.stdout_colour ? !coloured_whole(l) : col)
                 fail19(v, "wrong-colour",
                        std::string("stdout line for ") + mname(calls[l.cid]) + (cfg.stdout_colour ? " is not" : " is")
@@ -1066,7 +1075,7 @@ Verdict judge_c19(const Plan &plan, const sim::Shm *shm, const ChildExit &, cons
         for (auto &l : err_lines) {
             if (l.cid < 0)
                 continue;
-            if (l.nseq > 0) {
+            if (l.nseq > calls[l.cid].own_seq) {
                 if (!coloured_whole(l))
                     fail19(v, "wrong-colour", "stderr line for " + mname(calls[l.cid]) + " carries malformed colour codes",
                            "wrong-colour/stderr");
@@ -1092,7 +1101,7 @@ Verdict judge_c19(const Plan &plan, const sim::Shm *shm, const ChildExit &, cons
         std::map<int, int> cnt;
         std::vector<int> order;
         for (auto &s : sys) {
-            int cid = map_line(s.text, calls);
+            int cid = map_line(strip_ansi(s.text), calls);
             if (cid < 0)
                 continue;
             const Call19 &c = calls[cid];
@@ -1163,7 +1172,7 @@ Verdict judge_c19(const Plan &plan, const sim::Shm *shm, const ChildExit &, cons
         std::map<int, int> cnt_file;
         check_output(v, fo, lines, calls, cfg, &cnt_file);
         for (auto &l : lines)
-            if (l.cid >= 0 && l.nseq > 0)
+            if (l.cid >= 0 && l.nseq > (cfg.ini ? calls[l.cid].own_seq : 0))
                 fail19(v, "colour-in-file", "the log file line for " + mname(calls[l.cid]) + " contains terminal colour codes");
         // pre-existing content is kept (unless retention removed whole files)
         if (cfg.pre > 0) {
